@@ -116,6 +116,12 @@ func c04Tree(seed uint64, idx int) (*tree.Tree, *tree.Tree) {
 		e.Data = R.Bytes(len(e.Data))
 		e.Mtime += 7
 	}
+	// the link group is out of date too, so that the file and its link are
+	// re-created by the transfer (an abort can then hit between the two)
+	if e := prior.Get("a-b"); e != nil && e.Type == tree.File {
+		nd := R.Bytes(9)
+		applyGroup(prior, "a-b", func(x *tree.Entry) { x.Data = append([]byte{}, nd...); x.Mtime += 3 })
+	}
 	prior.Remove("a/empty")
 	if e := prior.Get("a/sub/two"); e != nil && e.Type == tree.File {
 		e.Data = R.Bytes(100)
@@ -261,7 +267,11 @@ func c04Run(c *core.Ctx) *core.Result {
 	case "notify":
 		nrec.ErrAt = plan.K
 	}
-	res := runSync(syncOpt{Cfg: cfg, Src: sf, Dest: dest, TeardownWhenStuck: true, Timeout: 90 * time.Second,
+	var srcFS fsutil.FS = sf
+	if plan.Class != "walk" && plan.Class != "read" && plan.K%2 == 0 {
+		srcFS = c04DiskSrc(dest, src)
+	}
+	res := runSync(syncOpt{Cfg: cfg, Src: srcFS, Dest: dest, TeardownWhenStuck: true, Timeout: 90 * time.Second,
 		OnPair: func(p *wire.Pair) { pair = p },
 		Recv:   fsutil.ReceiveOpt{NotifyHashed: nrec.fn, ContentHasher: hs.fn}})
 	// did the source-side / callback faults fire?
@@ -375,8 +385,25 @@ func c04Judge(c *core.Ctx, r *core.Result, plan faultPlan, res *syncRes, src *tr
 	c04FollowUp(r, desc, src, dest, got)
 }
 
+// c04DiskSrc materialises the source next to dest (once per case) so that the
+// follow-up transfer (and the fault classes that do not need a synthetic
+// source) run from the real directory FS, stat construction included.
+func c04DiskSrc(dest string, src *tree.Tree) fsutil.FS {
+	d := filepath.Join(filepath.Dir(dest), "src-disk")
+	if _, err := os.Stat(d); err != nil {
+		if os.Mkdir(d, 0755) != nil || tree.Materialise(d, src) != nil {
+			return newSynthFS(src)
+		}
+	}
+	fs, err := fsutil.NewFS(d)
+	if err != nil {
+		return newSynthFS(src)
+	}
+	return fs
+}
+
 func c04FollowUp(r *core.Result, desc string, src *tree.Tree, dest string, leftovers *tree.Tree) {
-	res2 := runSync(syncOpt{Src: newSynthFS(src), Dest: dest, Cfg: wire.Config{Cap: 8}})
+	res2 := runSync(syncOpt{Src: c04DiskSrc(dest, src), Dest: dest, Cfg: wire.Config{Cap: 8}})
 	if checkHang(r, res2, desc+" (follow-up clean transfer)") {
 		return
 	}
